@@ -783,7 +783,11 @@ class Run:
                 else:
                     violations.append((st, v))
             if st in SUPPLEMENTARY:
-                self.supplementary_notes += [f"{st}: {w}" for w in doc.get("inconclusive", [])]
+                # tools that could not run and exhausted budgets are notes; a failure of the harness
+                # itself in that stage is not (the stage then says nothing, silently passing would be wrong)
+                hard = [w for w in doc.get("inconclusive", []) if "HARNESS" in w or "driver of the" in w or "driver failed" in w]
+                inconclusive += [f"{st}: {w}" for w in hard]
+                self.supplementary_notes += [f"{st}: {w}" for w in doc.get("inconclusive", []) if w not in hard]
             else:
                 inconclusive += [f"{st}: {w}" for w in doc.get("inconclusive", [])]
         wall = time.time() - self.t0
